@@ -25,6 +25,56 @@ def emit_kcase(case, res):
     return "(Build_kcase %s %s %s %s)" % (devgen.emit_config(cfg), evs, obs, devgen.emit_msgs(res["cleanup"]))
 
 
+ACTION_ID = {a: i for i, a in enumerate(["MappingUp", "MappingDown", "AMapping", "OctaveUp", "OctaveDown", "SemitoneUp", "SemitoneDown",
+                                          "ChannelUp", "ChannelDown", "AChannel", "Multinote", "Panic", "Learning", "Exit", "ANone"])}
+CMODE_ID = {m: i for i, m in enumerate(devgen.CMODES)}
+ATYPE_ID = {"cc": 0, "pitch_bend": 1, "key": 2, "action": 3}
+
+
+def _msgs_text(out, ms):
+    out.append(len(ms))
+    for m in ms:
+        out.append(len(m))
+        out += m
+
+
+def emit_kcase_text(case, res, index=0):
+    """The content of emit_kcase as one line of blank-separated integers for the extracted driver (grammar: coq/extract/driver.ml).
+    Field for field the same encoding as emit_config / emit_key_event / emit_ostep / emit_msgs (sub-handler ids, mapping ids,
+    constructor choice for unknown strings); numbers that are N in the model must be non-negative here too."""
+    cfg = case["cfg"]
+    sid = devgen.sub_ids(cfg)
+    names = devgen.map_name_ids(cfg)
+    act = lambda a: ACTION_ID[devgen.action_ctor(a)]
+    o = [index, len(cfg["mappings"])]
+    for i, m in enumerate(cfg["mappings"]):
+        o += [i, len(m["midi"])]
+        for k in m["midi"]:
+            o += [sid[k["sub"]], k["code"], k["note"], k["off"]]
+        o.append(len(m["analog"]))
+        for a in m["analog"]:
+            o += [sid[a["sub"]], a["code"], ATYPE_ID.get(a["type"], 4), a["cc"], a["ccneg"], a["note"], a["noteneg"], a["off"], a["offneg"],
+                  act(a["act"]), act(a["actneg"]), int(bool(a["flip"])), int(bool(a["bidi"])), int(bool(a["dzc"]))]
+    o.append(len(cfg["actions"]))
+    for a in cfg["actions"]:
+        o += [a["code"], act(a["action"])]
+    o.append(len(cfg["exitseq"]))
+    o += cfg["exitseq"]
+    o += [CMODE_ID[cfg["cmode"]], cfg["octave"], cfg["semitone"], cfg["channel"], cfg["mapping"], cfg["velocity"]]
+    o.append(len(case["events"]))
+    for e in case["events"]:
+        if e["t"] != "k":
+            raise ValueError(e)
+        o += [sid[e["sub"]], e["code"], e["val"]]
+    o.append(len(res["steps"]))
+    for st in res["steps"]:
+        s = st["state"]
+        _msgs_text(o, st["midi"])
+        o += [st["sigs"], s["octave"], s["semitone"], s["channel"], s["notes"], names.get(s["mapping"], 999)]
+    _msgs_text(o, res["cleanup"])
+    return " ".join(map(str, map(int, o)))
+
+
 def eval_shards(cases, results, evals, imports="", shard=150, emit=emit_kcase, case_type="kcase", tag="dev"):
     """evals: list of (NAME, coq term with free variable `cases`). Returns {NAME: [(global case index, value)...]} where
     every coq term must evaluate to a list of (nat * X) pairs or a list of nat (local indices)."""
